@@ -207,6 +207,93 @@ def _(c, m, x):
     return rsome.expcone(y, e[0], e[1]), lambda xv, aux, yi=y.first: K(ev(xv)[0], aux[yi], ev(xv)[1])
 
 
+# ---- the same atoms scaled and used on the REFLECTED side (affine >= k*convex, affine <= k*concave): these go
+# ---- through Affine.__ge__/__le__, the expression's __rsub__/__neg__ and must keep the multiplier
+@case("abs-scaled-reflected")
+def _(c, m, x):
+    e, ev = lin(c, x, 2, "in")
+    r, rv = _rhs(c, x, (2,))
+    k = _mult(c)
+    return r >= k * abs(e), lambda xv, aux: views.all_le(k * np.array([abs(t) for t in ev(xv)], dtype=object), rv(xv))
+
+
+@case("norm2-scaled-reflected")
+def _(c, m, x):
+    e, ev = lin(c, x, 2, "in")
+    r, rv = _rhs(c, x, ())
+    k = _mult(c)
+    return r >= k * rsome.norm(e, 2), lambda xv, aux: p_and(p_le(0, rv(xv)), p_le(k * k * _sumsq(ev(xv)), rv(xv) * rv(xv)))
+
+
+@case("sumsqr-scaled-reflected-offset")
+def _(c, m, x):
+    e, ev = lin(c, x, 2, "in")
+    r, rv = _rhs(c, x, ())
+    k = _mult(c)
+    o = c.fresh_real("o")
+    return r - o >= k * rsome.sumsqr(e) - 2 * o, lambda xv, aux: p_le(k * _sumsq(ev(xv)) - 2 * o, rv(xv) - o)
+
+
+@case("exp-scaled-reflected")
+def _(c, m, x):
+    e, ev = lin(c, x, 2, "in")
+    r, rv = _rhs(c, x, (2,))
+    k = _mult(c)
+    return r >= k * rsome.exp(e), lambda xv, aux: p_and(*[K(v, t / k, 1.0) for v, t in zip(ev(xv), rv(xv))])
+
+
+@case("log-scaled-reflected")
+def _(c, m, x):
+    e, ev = lin(c, x, 2, "in")
+    r, rv = _rhs(c, x, (2,))
+    k = _mult(c)
+    return r <= k * rsome.log(e), lambda xv, aux: p_and(*[K(t / k, v, 1.0) for v, t in zip(ev(xv), rv(xv))])
+
+
+@case("pexp-scaled")
+def _(c, m, x):
+    e, ev = lin(c, x, 2, "in")
+    s, sv = lin(c, x, 2, "sc")
+    r, rv = _rhs(c, x, (2,))
+    k = _mult(c)
+    return k * rsome.pexp(e, s) <= r, lambda xv, aux: p_and(*[K(v, t / k, s_) for v, t, s_ in zip(ev(xv), rv(xv), sv(xv))])
+
+
+@case("pexp-scaled-reflected")
+def _(c, m, x):
+    e, ev = lin(c, x, 2, "in")
+    s, sv = lin(c, x, 2, "sc")
+    r, rv = _rhs(c, x, (2,))
+    k = _mult(c)
+    return r >= k * rsome.pexp(e, s), lambda xv, aux: p_and(*[K(v, t / k, s_) for v, t, s_ in zip(ev(xv), rv(xv), sv(xv))])
+
+
+@case("plog-scaled-reflected")
+def _(c, m, x):
+    e, ev = lin(c, x, 2, "in")
+    s, sv = lin(c, x, 2, "sc")
+    r, rv = _rhs(c, x, (2,))
+    k = _mult(c)
+    return r <= k * rsome.plog(e, s), lambda xv, aux: p_and(*[K(t / k, v, s_) for v, t, s_ in zip(ev(xv), rv(xv), sv(xv))])
+
+
+@case("plog-scaled-negated-twice")
+def _(c, m, x):
+    e, ev = lin(c, x, 2, "in")
+    s, sv = lin(c, x, 2, "sc")
+    r, rv = _rhs(c, x, (2,))
+    k = _mult(c)
+    return -(-(k * rsome.plog(e, s))) >= r, lambda xv, aux: p_and(*[K(t / k, v, s_) for v, t, s_ in zip(ev(xv), rv(xv), sv(xv))])
+
+
+@case("exp-sum", exact=False)
+def _(c, m, x):
+    e, ev = lin(c, x, 2, "in")
+    r, rv = _rhs(c, x, ())
+    # sum_i exp(v_i) <= t   <=>   exists u: sum u <= t, (v_i, u_i, 1) in K_exp
+    return rsome.exp(e).sum() <= r, ("expsum", ev, rv)
+
+
 @case("entropy", exact=False)
 def _(c, m, x):
     e, ev = lin(c, x, 2, "in")
@@ -280,6 +367,12 @@ def _(c, m, x):
     k = _mult(c)
     o = c.fresh_real("o")
     return "min", k * rsome.sumsqr(e) + o, lambda xv: k * _sumsq(ev(xv)) + o, "value"
+
+
+@objective("min-pnorm-exc")
+def _(c, m, x):
+    e, ev = lin(c, x, 2, "in")
+    return "min", rsome.pnorm(e, 2.5), lambda xv: None, "linked"
 
 
 @objective("min-norm2")
@@ -394,6 +487,17 @@ def _written_special(spec, xv, X, F, nuser):
             terms += [p_eq(z, v[s]), K(u, 1.0, v[s])]
             us.append(u)
         return ("need", p_and(*terms), p_le(rv(xv) / k, sum(us, 0.0)))
+    if kind == "expsum":
+        _, ev, rv = spec
+        v = ev(xv)
+        us, terms = [], []
+        for s in range(len(v)):
+            if s >= len(cones):
+                return False
+            a, u, z1 = (X[i] for i in cones[s])
+            terms += [p_eq(z1, 1.0), K(v[s], u, 1.0)]
+            us.append(u)
+        return ("need", p_and(*terms), p_le(sum(us, 0.0), rv(xv)))
     if kind == "softplus":
         _, ev, rv, k = spec
         v, t = ev(xv), rv(xv)
@@ -502,6 +606,11 @@ def objective_case(name, which=("sound", "exact")):
 
     def sound(ns, F):
         X = ns["X"]
+        if ns["kind"] == "linked":
+            # an objective whose atom this spec cannot express (p-norm through exponential cones): at least the
+            # epigraph variable must be tied to the rest of the program, i.e. the objective was not dropped
+            A = views.dense(F.linear)
+            return any(_coef_nz(A[i, 0]) and any(_coef_nz(A[i, j]) for j in range(1, A.shape[1])) for i in range(A.shape[0]))
         val = ns["value"](X[1:3])
         if ns["kind"] == "norm2":
             _, v, o = val
@@ -512,6 +621,8 @@ def objective_case(name, which=("sound", "exact")):
 
     def exact(ns, F):
         X = ns["X"]
+        if ns["kind"] == "linked":
+            return True
         xu = [X[0], X[1], X[2]]
         val = ns["value"](X[1:3])
         W = witness(F, 3, xu)
